@@ -901,7 +901,7 @@ def mc_cond(tier):
             raise ToolError("non-vacuity: the reader without a taken flag must violate SelectedAgree")
         mc["theorems"] = ("SelectedAgree: the stack machine assembles exactly the lines the declarative reading of the property selects; "
                           "Filtered: a program and its filtered text build to the same result -- for every well-formed program of up to %d lines "
-                          "(nesting <= 3) over {.if 0/1, .if K==1, .ifdef/.ifndef, .elif 0/1, .else, .endif, .define, marker, garbage}" % (6 if tier == "quick" else 8))
+                          "(nesting <= 3) over {.if 0/1, .if K==1, .ifdef/.ifndef, .elif 0/1, .else, .endif, .define, marker, garbage}" % (6 if tier == "quick" else 7))
         mc["broken_variant"] = "the reader without a taken flag (the implementation before fix fd04ac7) violates SelectedAgree after %d states" % rb.distinct
         return mc
     finally:
